@@ -192,7 +192,11 @@ def pick_table(run):
                        ('config_file', 'policy.yaml'), ('config_file', 'other.yaml'),
                        ('override', 'policy.yaml'), ('override', 'other.yaml'),
                        # a name that merely ends in / contains the library default is another name
-                       ('set_default', 'nova-policy.yaml'), ('set_default', 'policy.yaml.sample')]:
+                       ('set_default', 'nova-policy.yaml'), ('set_default', 'policy.yaml.sample'),
+                       # the library's own helper a service calls to change the defaults (alone, and under a value the
+                       # operator configured, which wins)
+                       ('lib_set_defaults', 'policy.yaml'), ('lib_set_defaults', 'other.yaml'),
+                       ('config_file+lib_set_defaults', 'policy.yaml'), ('config_file+lib_set_defaults', 'other.yaml')]:
         for have_yaml, have_json, have_other in itertools.product([False, True], repeat=3):
             for fallback in (True, False):
                 for explicit in (None, 'explicit.yaml', 'policy.yaml'):
@@ -204,23 +208,33 @@ def pick_table(run):
                     conf = cfg.ConfigOpts()
                     opts._register(conf)
                     args = ['--config-dir', root]
-                    if how == 'config_file':
+                    if how in ('config_file', 'config_file+lib_set_defaults'):
                         cf = os.path.join(root, 'svc.conf')
                         open(cf, 'w').write('[oslo_policy]\npolicy_file = %s\n' % value)
                         args = ['--config-file', cf, '--config-dir', root]
                     conf(args, project='verif')
+                    saved_opts = {o.dest: (o.default, o._set_location) for o in opts._options}
                     try:
                         if how == 'set_default':
                             conf.set_default('policy_file', value, group='oslo_policy')
                         elif how == 'override':
                             conf.set_override('policy_file', value, group='oslo_policy')
+                        elif how == 'lib_set_defaults':
+                            opts.set_defaults(conf, policy_file=value)
+                        elif how == 'config_file+lib_set_defaults':
+                            opts.set_defaults(conf, policy_file='libdefault.yaml')
                         e = policy.Enforcer(conf, policy_file=explicit, fallback_to_json_file=fallback)
                         got = e.policy_file
                     finally:
                         if how == 'set_default':
                             conf.clear_default('policy_file', group='oslo_policy')
-                    loc = {'opt_default': 'opt_default', 'set_default': 'set_default',
-                           'config_file': 'user', 'override': 'set_override'}[how]
+                        if 'lib_set_defaults' in how:
+                            # the helper rewrites the module-level option objects: put the stock default back
+                            conf.clear_override('policy_file', group='oslo_policy')
+                            for o in opts._options:
+                                o.default, o._set_location = saved_opts[o.dest]
+                    loc = {'opt_default': 'opt_default', 'set_default': 'set_default', 'lib_set_defaults': 'set_default',
+                           'config_file': 'user', 'override': 'set_override', 'config_file+lib_set_defaults': 'user'}[how]
                     want = pick_spec(value, loc, fallback, have_yaml, have_json, have_other, explicit)
                     if not explicit:
                         found_opt = have_yaml if value == 'policy.yaml' else (have_other if value == 'other.yaml' else False)
